@@ -114,6 +114,19 @@ CLAIMED["C13"] = dict(
     technique="contract-based deductive verification of the removability predicates and liveness steps (SMT) + bounded stand-in with independent liveness oracle",
 )
 
+CLAIMED["C24"] = dict(
+    category="exploration",
+    text="Bounded (exhaustive within the bound): the real DominanceInfo and PostOrderIterator are run on EVERY control-flow graph with <= 3 (quick) / "
+         "<= 4 (thorough) blocks and <= 2 successors per block (self-loops, multi-edges, unreachable blocks) plus seeded random graphs up to 8 blocks, "
+         "and compared with the path-based definitions (dominates(a,b) for every reachable b; post-order = reachable blocks exactly once, entry last). "
+         "The table readers dominates / strictly_dominates / _strictly_dominates_block are additionally under discharged contracts (pyvc + z3). "
+         "Exploration is the honest level: the fixpoint of DominanceInfo.__init__ and the stack machine of PostOrderIterator are not proved.",
+    note="Bounded stand-in, never counted as proved; fixpoint completeness/soundness of DominanceInfo.__init__ and PostOrderIterator.__next__ are outside "
+         "the deductive subset (sets of sets, tuple stack).",
+    design="§4 C24",
+    technique="bounded exhaustive runtime-contract check against graph definitions (stand-in) + discharged contracts on the table readers",
+)
+
 NOT_APPLICABLE = {
     "C04": "whole Printer∘Parser composition over every dialect: recursive string programs; no per-function contract within reach of the SMT-backed generator expresses it",
     "C05": "about 80 dialects of hand-written print/parse pairs and a format-string interpreter; same obstacle as C04",
@@ -127,7 +140,7 @@ NOT_APPLICABLE = {
     "C28": "result preservation of an e-graph pipeline: whole-program statement with no per-function postcondition implying it",
 }
 
-NOT_REACHED = ["C02", "C06", "C09", "C11", "C14", "C18", "C19", "C20", "C24", "C25", "C26"]
+NOT_REACHED = ["C02", "C06", "C09", "C11", "C14", "C18", "C19", "C20", "C25", "C26"]
 
 
 def main():
